@@ -155,6 +155,7 @@ type srv struct {
 	script  map[string][]byte
 	client  *core.Client
 	hcount  int
+	hfails  int
 }
 
 func (s *srv) handle(ctx context.Context, request []byte, next core.NextIOHandler) ([]byte, error) {
@@ -316,11 +317,22 @@ func request(s *srv, c *core.Client, req []byte) ([]byte, error) {
 // health: a fresh marker call through the transport's own client; true iff the service got it
 // and the right answer came back
 func (s *srv) health() bool {
-	for attempt := 0; attempt < 3; attempt++ {
+	if s.hfails >= 5 {
+		// this transport has not managed a single healthy call five times in a row: stop
+		// paying the timeouts, it stays reported as not healthy
+		return false
+	}
+	attempts, timeout := 2, 4*time.Second
+	if s.hfails > 0 {
+		attempts, timeout = 1, time.Second
+	}
+	for attempt := 0; attempt < attempts; attempt++ {
 		s.hcount++
+		s.client.Timeout = timeout
 		req := append(append([]byte{}, healthPrefix...), []byte(fmt.Sprintf("%d", s.hcount))...)
 		resp, err := request(s, s.client, req)
 		if err == nil && bytes.Equal(resp, append([]byte("r:"), req...)) {
+			s.hfails = 0
 			return true
 		}
 		// a persistent connection may have been a casualty of an earlier case: start over
@@ -328,6 +340,7 @@ func (s *srv) health() bool {
 		s.client = newClient(s, 10*time.Second)
 		time.Sleep(20 * time.Millisecond)
 	}
+	s.hfails++
 	return false
 }
 
